@@ -11,6 +11,8 @@ import (
 	"math/rand"
 	"os"
 	"os/exec"
+	"runtime/metrics"
+	"sort"
 	"strings"
 	"sync"
 	"syscall"
@@ -55,9 +57,12 @@ type jobRes struct {
 	Out    string `json:"out"` // value | error | panic
 	Detail string `json:"detail"`
 	Re     string `json:"re,omitempty"` // "panic: ..." if re-encoding the decoded value panics (information only)
+	MemMB  int    `json:"mem,omitempty"` // memory obtained from the OS after the job, if large
+	Bye    bool   `json:"bye,omitempty"` // the child exits after this job (memory is not returned to the OS)
 }
 
 type jobMeta struct {
+	key   string // jobs with the same key are the same mutation at the same kind of place
 	dec   string
 	data  []byte
 	exp   string
@@ -241,7 +246,7 @@ func bytesMuts(field string, b []byte) []bmut {
 
 // ---- the child: decodes jobs under recover with an address-space limit ---------
 
-const childAS = 3 << 30
+const childAS = 4 << 30
 
 func TestWireChild(t *testing.T) {
 	if os.Getenv("VERIF_WIRE_CHILD") != "1" {
@@ -265,14 +270,23 @@ func TestWireChild(t *testing.T) {
 			data, _ := base64.StdEncoding.DecodeString(j.B)
 			r := runJob(j.Dec, data)
 			r.ID = j.ID
+			metrics.Read(memSample)
+			if mb := int(memSample[0].Value.Uint64() >> 20); mb > 512 {
+				r.MemMB, r.Bye = mb, true
+			}
 			b, _ := json.Marshal(r)
 			out.Write(append(append([]byte("JOB "), b...), '\n'))
+			if r.Bye {
+				return
+			}
 		}
 		if err != nil {
 			return
 		}
 	}
 }
+
+var memSample = []metrics.Sample{{Name: "/memory/classes/total:bytes"}}
 
 func runJob(dec string, data []byte) jobRes {
 	if dec == "Proto" {
@@ -319,9 +333,8 @@ type tailBuf struct {
 
 func (t *tailBuf) Write(p []byte) (int, error) {
 	t.mu.Lock()
-	t.b = append(t.b, p...)
-	if len(t.b) > 8192 {
-		t.b = t.b[len(t.b)-8192:]
+	if len(t.b) < 24576 { // the head is what matters: "fatal error: ..." comes first
+		t.b = append(t.b, p...)
 	}
 	t.mu.Unlock()
 	return len(p), nil
@@ -331,7 +344,7 @@ func (t *tailBuf) String() string { t.mu.Lock(); defer t.mu.Unlock(); return str
 
 func startChild() (*child, error) {
 	cmd := exec.Command(os.Args[0], "-test.run", "^TestWireChild$")
-	cmd.Env = append(os.Environ(), "VERIF_WIRE_CHILD=1", "GOMAXPROCS=2", "GOTRACEBACK=none")
+	cmd.Env = append(os.Environ(), "VERIF_WIRE_CHILD=1", "GOMAXPROCS=2", "GOTRACEBACK=all")
 	in, err := cmd.StdinPipe()
 	if err != nil {
 		return nil, err
@@ -374,6 +387,8 @@ func (c *child) stop() {
 // is charged to the job in flight and replaced.
 func runJobs(metas []*jobMeta, workers int, res *drv.Result) []jobRes {
 	out := make([]jobRes, len(metas))
+	var fmu sync.Mutex
+	fatals := map[string]int{}
 	next := make(chan int, len(metas))
 	for i := range metas {
 		next <- i
@@ -391,6 +406,17 @@ func runJobs(metas []*jobMeta, workers int, res *drv.Result) []jobRes {
 				}
 			}()
 			for i := range next {
+				if k := metas[i].key; k != "" {
+					fmu.Lock()
+					n := fatals[k]
+					fmu.Unlock()
+					if n >= 2 {
+						// killing a child costs > 1 s: the same mutation of the same kind of token already did it twice
+						out[i] = jobRes{ID: i, Out: "skipped", Detail: "same mutation class already killed the decoder process twice"}
+						res.Add("skipped_after_fatal", 1)
+						continue
+					}
+				}
 				if c == nil {
 					var err error
 					if c, err = startChild(); err != nil {
@@ -413,8 +439,10 @@ func runJobs(metas []*jobMeta, workers int, res *drv.Result) []jobRes {
 					if !ok {
 						c.cmd.Wait()
 						out[i] = jobRes{ID: i, Out: "fatal", Detail: c.stderr.String()}
-						res.Add("us_fatal", int(time.Since(t0).Microseconds()))
 						res.Add("n_fatal", 1)
+						fmu.Lock()
+						fatals[metas[i].key]++
+						fmu.Unlock()
 						c = nil
 						continue
 					}
@@ -427,7 +455,11 @@ func runJobs(metas []*jobMeta, workers int, res *drv.Result) []jobRes {
 						continue
 					}
 					out[i] = r
-					res.Add("us_"+r.Out, int(time.Since(t0).Microseconds()))
+					_ = t0
+					if r.Bye {
+						c.stop()
+						c = nil
+					}
 				case <-time.After(30 * time.Second):
 					c.cmd.Process.Kill()
 					c.stop()
@@ -466,7 +498,7 @@ func TestWireMut(t *testing.T) {
 	res.Add("cases", len(cases))
 	thorough := drv.Thorough()
 	nRandom := 3
-	protoEvery := 3
+	protoEvery := 2
 	if thorough {
 		nRandom, protoEvery = 120, 1
 	}
@@ -477,7 +509,15 @@ func TestWireMut(t *testing.T) {
 	var metas []*jobMeta
 	add := func(m *jobMeta) { metas = append(metas, m) }
 	nEnv := 0
+	envIdx := 0
 	for _, c := range cases {
+		if c.Ty == "Envelope" && c.Base == "value" {
+			envIdx++
+			if !thorough && os.Getenv("VERIF_REPLAY") == "" && envIdx%3 != 0 {
+				res.Add("envelope_cases_left_to_thorough", 1)
+				continue
+			}
+		}
 		base, _ := w.stream(c.Toks)
 		add(&jobMeta{dec: c.Ty, data: base, exp: c.Base, class: "base:" + c.Why, desc: fmt.Sprintf("unmutated stream (%s)", c.Why), line: c.line})
 		res.Add("structured", 1+len(c.Muts))
@@ -507,8 +547,9 @@ func TestWireMut(t *testing.T) {
 					}
 				}
 			}
-			add(&jobMeta{dec: c.Ty, data: data, exp: m.Exp, over: m.Over, class: class, desc: desc, line: c.line})
-			if c.Ty == "Envelope" && m.Op != "grow" {
+			key := fmt.Sprintf("%s|%s|%s|%s|%d", c.Ty, m.Op, role, m.Tok.K, m.Tok.N)
+			add(&jobMeta{key: key, dec: c.Ty, data: data, exp: m.Exp, over: m.Over, class: class, desc: desc, line: c.line})
+			if c.Ty == "Envelope" && m.Op != "grow" && (len(metas)%6 == 0 || thorough) {
 				add(&jobMeta{dec: "Proto", data: data, exp: "any", class: "native-bytes", desc: "native stream fed to the protobuf decoder: " + desc, line: c.line})
 			}
 		}
@@ -578,43 +619,78 @@ func TestWireMut(t *testing.T) {
 		return codecs[dec].site
 	}
 	inconclusive := 0
+	type agg struct {
+		first   *jobMeta
+		detail  string
+		classes map[string]int
+		n       int
+	}
+	aggs := map[string]*agg{}
+	note := func(sig string, m *jobMeta, detail string) {
+		a := aggs[sig]
+		if a == nil {
+			a = &agg{first: m, detail: detail, classes: map[string]int{}}
+			aggs[sig] = a
+		}
+		a.classes[m.class]++
+		a.n++
+	}
 	for i, m := range metas {
 		r := outs[i]
 		res.Seen("case", m.dec+"|"+m.class+"|"+r.Out)
-		rp := replayOf("TestWireMut", m.line)
-		input := fmt.Sprintf("input %d bytes %x", len(m.data), m.data[:min(len(m.data), 64)])
 		switch r.Out {
 		case "panic":
-			res.Violate("C13", "monitor", "panic|"+panicSite(r.Detail)+"|"+m.class, fmt.Sprintf("%s panicked: %s; %s; %s", site(m.dec), r.Detail, m.desc, input), rp)
+			note("panic|"+panicSite(r.Detail), m, fmt.Sprintf("%s panicked: %s", site(m.dec), r.Detail))
 		case "fatal":
 			kind := "fatal"
 			if strings.Contains(r.Detail, "out of memory") || strings.Contains(r.Detail, "cannot allocate") {
 				kind = "alloc"
 			}
-			res.Violate("C13", "monitor", kind+"|"+site(m.dec)+"|"+m.class, fmt.Sprintf("%s killed the process (%s: a declared length is allocated before it is checked against the input; address-space limit %d MiB): %s; %s; %s",
-				site(m.dec), kind, childAS>>20, lastLines(r.Detail, 3), m.desc, input), rp)
+			fr := topFrame(r.Detail)
+			if fr == "?" {
+				fr = site(m.dec)
+			}
+			note(kind+"|"+fr, m, fmt.Sprintf("%s killed the process (address-space limit %d MiB; a length declared in the input is allocated before it is checked against the input): %s", site(m.dec), childAS>>20, lastLines(r.Detail, 3)))
 		case "hang":
-			res.Violate("C13", "monitor", "hang|"+site(m.dec)+"|"+m.class, fmt.Sprintf("%s did not terminate within 30 s; %s; %s", site(m.dec), m.desc, input), rp)
+			note("hang|"+site(m.dec), m, fmt.Sprintf("%s did not terminate within 30 s", site(m.dec)))
 		case "inconclusive":
 			inconclusive++
 			res.Note("inconclusive job: %s", r.Detail)
-		case "value":
-			if m.over {
-				res.Violate("C13", "monitor", "overlimit-accepted|"+site(m.dec)+"|"+m.class, fmt.Sprintf("%s accepted an encoding that declares more than a documented limit; %s; %s", site(m.dec), m.desc, input), rp)
-			} else if m.exp == "error" {
-				res.Add("drift_expected_error_got_value", 1)
-				res.Seen("drift", m.dec+"|"+m.class)
+		case "value", "error":
+			if r.MemMB > 1536 {
+				note("alloc|"+site(m.dec), m, fmt.Sprintf("%s obtained %d MiB from the operating system for an input of %d bytes (a length declared in the input is allocated before it is checked against the input)", site(m.dec), r.MemMB, len(m.data)))
 			}
-			if r.Re != "" {
-				res.Add("decoded_value_unusable", 1)
-				res.Seen("unusable", m.dec+"|"+m.class+"|"+panicSite(r.Re))
-			}
-		case "error":
-			if m.exp == "value" {
+			if r.Out == "value" {
+				if m.over {
+					note("overlimit-accepted|"+site(m.dec)+"|"+m.class, m, fmt.Sprintf("%s accepted an encoding that declares more than a documented limit", site(m.dec)))
+				} else if m.exp == "error" {
+					res.Add("drift_expected_error_got_value", 1)
+					res.Seen("drift", m.dec+"|"+m.class)
+				}
+				if r.Re != "" {
+					res.Add("decoded_value_unusable", 1)
+					res.Seen("unusable", m.dec+"|"+m.class+"|"+panicSite(r.Re))
+				}
+			} else if m.exp == "value" {
 				res.Add("drift_expected_value_got_error", 1)
 				res.Seen("drift", m.dec+"|"+m.class+"|refused")
 			}
 		}
+	}
+	var sigs []string
+	for s := range aggs {
+		sigs = append(sigs, s)
+	}
+	sort.Strings(sigs)
+	for _, sg := range sigs {
+		a := aggs[sg]
+		var cl []string
+		for c, n := range a.classes {
+			cl = append(cl, fmt.Sprintf("%s x%d", c, n))
+		}
+		sort.Strings(cl)
+		m := a.first
+		res.Violate("C13", "monitor", sg, fmt.Sprintf("%s; first input: %s; %d bytes %x; %d inputs of mutation classes %v", a.detail, m.desc, len(m.data), m.data[:min(len(m.data), 96)], a.n, cl), replayOf("TestWireMut", m.line))
 	}
 	if inconclusive > len(metas)/100+1 {
 		t.Fatalf("%d inconclusive jobs", inconclusive)
